@@ -321,6 +321,7 @@ CHECKS["C16"] = dict(
         ob("VH_C16_select", dict(NI=0, NE=2), pkg=COPY, covers=["agreeing-class", "incremental-class"], bounds="<=2 exclude patterns"),
         ob("VH_C16_select", dict(NI=1, NE=2, FIX=1), pkg=COPY, covers=["agreeing-class", "incremental-class", "on-demand-ancestor"], bounds="<=1 include and <=2 exclude patterns on the concrete tree a/{a, aa/, b/{a}}, b"),
         ob("VH_C16_select", dict(NI=2, NE=1, FIX=1), pkg=COPY, covers=["agreeing-class", "incremental-class", "on-demand-ancestor"], bounds="<=2 include and <=1 exclude patterns on the concrete tree"),
+        ob("VH_C16_select", dict(NI=1, NE=1, FIX=1, POP=2), pkg=COPY, covers=["agreeing-class", "populated-destination", "unselected-over-existing"], bounds="<=1+1 patterns on the concrete tree, destination possibly holding the directory and an older file at the path of the source file P"),
         ob("VH_C16_select", dict(NI=2, NE=2, FIX=1), T, pkg=COPY, covers=["agreeing-class", "incremental-class"], bounds="<=2 include and <=2 exclude patterns on the concrete tree"),
         ob("VH_C16_select", dict(NI=2, NE=0), T, pkg=COPY, covers=["agreeing-class", "incremental-class"], bounds="<=2 include patterns"),
         ob("VH_C16_select", dict(NI=1, NE=1, POP=1), T, pkg=COPY, covers=["agreeing-class", "populated-destination"], bounds="populated destination"),
